@@ -56,6 +56,7 @@ type RetryOpts struct {
 	SampleAfterMs       int    `json:"sampleAfterMs,omitempty"`
 	DisconnectAt        string `json:"disconnectAt,omitempty"`
 	Hammer              bool   `json:"hammer,omitempty"`              // background goroutines keep calling Ping, Stats, Client, Handle (race-detector runs)
+	ReuseMessage        bool   `json:"reuseMessage,omitempty"`        // the application re-uses one Message value for its publishes (resetting ID, payload, QoS; not Dup)
 	EpilogueLoseSession bool   `json:"epilogueLoseSession,omitempty"` // after quiescence: broker restart (peer close + session lost), settle again
 	NoReestablish       bool   `json:"noReestablish,omitempty"`       // the scenario ends without a healthy connection on purpose
 }
@@ -254,6 +255,7 @@ func runRetry(sc *RetryScenario) *RetryResult {
 	}
 
 	nreq := 0
+	reused := &mqtt.Message{}
 	disconnected := false
 	var discWG sync.WaitGroup
 	releasedNames := map[string]bool{}
@@ -262,6 +264,11 @@ func runRetry(sc *RetryScenario) *RetryResult {
 		case "pub":
 			nreq++
 			m := &mqtt.Message{Topic: "t", QoS: mqtt.QoS(r.Q), Payload: netsim.PayloadOf(nreq), Retain: r.Retain}
+			if sc.Opts.ReuseMessage {
+				// only sound between completed publishes (scenarios place these at "idle")
+				reused.Topic, reused.QoS, reused.Payload, reused.Retain, reused.ID = m.Topic, m.QoS, m.Payload, m.Retain, 0
+				m = reused
+			}
 			cseq := rec.Emit(netsim.Event{"e": "SubmitCall", "i": nreq})
 			err := cli.Publish(ctx, m)
 			rec.Emit(netsim.Event{"e": "Submit", "i": nreq, "k": "pub", "q": r.Q, "fs": []string{}, "qs": []int{}, "res": netsim.ErrClass(err), "cseq": cseq})
